@@ -28,7 +28,7 @@ theorem dimsOf_congr (reg : Registry) {a b : Container} (h : a ≃ b) : dimsOf r
   refine (dimsOfRoot_congr reg (toRoot_congr reg h).2).trans ?_
   exact (dimsOf_equiv reg b).symm
 
-theorem allKnown_add (reg : Registry) (a b : Container) :
+theorem allKnown_add_eq (reg : Registry) (a b : Container) :
     allKnown reg (add a b) = (allKnown reg a && allKnown reg b) := by
   simp [allKnown, add, List.all_append]
 
